@@ -24,6 +24,7 @@ Definition FOps : NumOps := {|
   nadd := py_add; nsub := py_sub; nmul := py_mul; ndiv := py_div;
   nltb := py_ltb; nleb := py_leb; neqb := py_eqb;
   nofZ := PI;
+  ndec := fun m k => PF (PrimFloat.div (of_Z_small m) (of_Z_small (10 ^ k)));
   nround := py_roundv;
   nsum := py_sum;
   nsqrt := py_sqrt;
